@@ -468,7 +468,7 @@ impl<'a> E1<'a> {
             let before = sys.m.clone();
             let (img_before, jstart, nops_start) = {
                 let t = sys.target_ref(op);
-                let w = t.w.lock().unwrap();
+                let w = t.w.lock().unwrap_or_else(|e| e.into_inner());
                 (w.files.clone(), w.journal.len(), w.nops)
             };
             let wr_nops_start = env::nops(&sys.wr.w);
